@@ -497,21 +497,255 @@ Section Proofs.
   Lemma init_L_x : ix (fst (init_L psi_grad_full grad_psi P x_in)) = x_in.
   Proof. unfold init_L. cbv zeta. destruct (nleb (p_L0 P) n0); reflexivity. Qed.
 
-  (* MAIN: every completed run satisfies Post *)
-  Theorem panoc_post fuel o : panoc_ fuel = Done o -> Post o.
+  Notation initL := (init_L psi_grad_full grad_psi P x_in).
+  Definition first_iterate (i0 : it) : it := epsih (eprox (set_gamma_L i0 (p_Lgamma P / iL i0) (iL i0))).
+
+  Lemma init_inv i0 c0 i3 c1 s1 : initL = (i0, c0) ->
+    initqub ls_fuel (first_iterate i0) (cnt_psih P c0) stats0 = Some (i3, c1, s1) ->
+    Inv (mkSt i3 it_blank 0 0 [] c1 s1 []).
   Proof.
-    unfold panoc. pose proof init_L_cons_x as Hx0. unfold L_init, gl0, glrel0 in *.
-    assert (HL : L_init = iL (fst (init_L psi_grad_full grad_psi P x_in))) by reflexivity.
-    destruct (init_L psi_grad_full grad_psi P x_in) as [i0 c0] eqn:E0. cbn [fst] in *.
-    destruct (negb (nfinite (iL i0))); [discriminate|].
-    set (i1 := set_gamma_L i0 (ndiv (p_Lgamma P) (iL i0)) (iL i0)).
+    intros E0 Eq. pose proof init_L_cons_x as Hx0.
+    assert (HL : L_init = iL i0) by (unfold L_init; now rewrite E0).
+    rewrite E0 in Hx0. cbn [fst] in Hx0. unfold first_iterate in Eq.
+    set (i1 := set_gamma_L i0 (p_Lgamma P / iL i0) (iL i0)) in *.
     destruct (eprox_cons i1) as [A B]; [exact Hx0|].
     pose proof (epsih_cons _ A B) as Hc2.
     assert (Hg2 : glrel0 (epsih (eprox i1))).
     { exists 0%nat. cbn [halve_n]. destruct (epsih_fields (eprox i1)) as (_ & _ & _ & _ & _ & F6 & F7 & _).
       unfold gl_of, gl0. rewrite F6, F7, HL. reflexivity. }
-    destruct (initqub ls_fuel (epsih (eprox i1)) (cnt_psih P c0) stats0) as [[[i3 c1] s1]|] eqn:Eq; [|discriminate].
     destruct (init_qub_inv _ _ _ _ _ _ _ Hc2 Hg2 Eq) as (H1 & H2 & H3).
-    apply loop_inv. constructor; cbn [st_curr st_k st_log]; try assumption; try constructor; try lia.
+    constructor; cbn [st_curr st_k st_log]; try assumption; try constructor; try lia.
+  Qed.
+
+  (* MAIN: every completed run satisfies Post *)
+  Theorem panoc_post fuel o : panoc_ fuel = Done o -> Post o.
+  Proof.
+    unfold panoc. destruct initL as [i0 c0] eqn:E0.
+    destruct (negb (nfinite (iL i0))); [discriminate|].
+    change (@ndiv R NumR) with Rdiv. fold (first_iterate i0).
+    destruct (initqub ls_fuel (first_iterate i0) (cnt_psih P c0) stats0) as [[[i3 c1] s1]|] eqn:Eq; [|discriminate].
+    apply loop_inv. exact (init_inv _ _ _ _ _ E0 Eq).
+  Qed.
+
+  (* the states at the top of `while (true)`: the one built by the initialisation, and every state a pass continues with
+     (after a completed iteration OR after a line search that was interrupted by a stop request) *)
+  Inductive reachable : lstate (T:=R) -> Prop :=
+  | reach_init i0 c0 i3 c1 s1 : initL = (i0, c0) ->
+      initqub ls_fuel (first_iterate i0) (cnt_psih P c0) stats0 = Some (i3, c1, s1) ->
+      reachable (mkSt i3 it_blank 0 0 [] c1 s1 [])
+  | reach_step s s' : reachable s -> pass_ s = PCont s' -> reachable s'.
+  Theorem reachable_inv s : reachable s -> Inv s.
+  Proof.
+    induction 1 as [i0 c0 i3 c1 s1 E0 Eq|s s' _ IH Ep]; [exact (init_inv _ _ _ _ _ E0 Eq)|].
+    pose proof (pass_inv s IH) as Hp. now rewrite Ep in Hp.
+  Qed.
+  (* the iterate the stop check of a pass looks at (after the optional evaluation of ∇ψ(x̂)) *)
+  Definition check_iterate (s : lstate (T:=R)) : it :=
+    if need_gradh P && negb (ihave (st_curr s)) then egradh (st_curr s) else st_curr s.
+  Lemma check_iterate_consistent s : Inv s ->
+    consistent (check_iterate s) /\ qub_ok (check_iterate s) /\ glrel0 (check_iterate s) /\ (need_gradh P = true -> ihave (check_iterate s) = true).
+  Proof.
+    intros [Hc Hq Hgl _ _ _ _]. unfold check_iterate. destruct (need_gradh P); cbn [andb];
+      [|split; [exact Hc|split; [exact Hq|split; [exact Hgl|discriminate]]]].
+    destruct (ihave (st_curr s)) eqn:Eh; cbn [negb]; [split; [exact Hc|split; [exact Hq|split; [exact Hgl|intros _; exact Eh]]]|].
+    destruct (egradh_cons _ Hc) as (A & B & C).
+    split; [exact A|]. split; [apply (qub_ok_core (st_curr s)); [now symmetry|exact Hq]|].
+    split; [apply (glrel0_core (st_curr s)); [now symmetry|exact Hgl]|]. intros _; exact C.
+  Qed.
+
+  (* ------------------------------------------------------------------ (a) reading the invariant *)
+  Definition coherent : Prop := forall x, pgrad x = (fst (psi_hat_of x), grad_L x (snd (psi_hat_of x))).
+
+  Lemma consistent_explicit (i : it) : consistent i ->
+    ixh i = vadd (ix i) (ip i) /\
+    eval_prox_grad_step lb ub l1 (igam i) (ix i) (igrad i) = (ixh i, ip i, ih i) /\
+    ipp i = vsqnorm (ip i) /\ igp i = vdot (ip i) (igrad i) /\
+    (ipsih i, iyh i) = psi_hat_of (ixh i) /\
+    (ihave i = true -> is_gradh (ixh i) (iyh i) (igradh i)) /\
+    val_x (ix i) (ipsi i) (igrad i).
+  Proof.
+    intros (Hx & Hs & Hh). split; [apply cons_step_xh, Hs|]. destruct Hs as (S1 & S2 & S3). destruct Hh as (H1 & H2). tauto.
+  Qed.
+  Lemma is_gradh_coherent x g : coherent -> is_gradh x (snd (psi_hat_of x)) g -> g = snd (pgrad x).
+  Proof.
+    intros Hco [E|[Ee E]]; [rewrite (Hco x); cbn [snd]; exact E|].
+    rewrite E. reflexivity.
+  Qed.
+  Lemma val_x_coherent x ψ g : coherent -> val_x x ψ g -> (ψ, g) = pgrad x.
+  Proof.
+    intros Hco [E|[E1 E2]]; [exact E|]. rewrite (is_gradh_coherent x g Hco E2), E1, (Hco x). reflexivity.
+  Qed.
+  (* under oracle coherence: ψx, ∇ψ are the values of eval_ψ_grad_ψ at x, and a valid ∇ψ(x̂) buffer holds its gradient at x̂ *)
+  Lemma consistent_coherent (i : it) : coherent -> consistent i ->
+    (ipsi i, igrad i) = pgrad (ix i) /\ (ihave i = true -> igradh i = snd (pgrad (ixh i))).
+  Proof.
+    intros Hco (Hx & _ & Hh1 & Hh2). split; [apply val_x_coherent; assumption|].
+    intros Hv. apply is_gradh_coherent; [exact Hco|]. rewrite <- Hh1. cbn [snd]. apply Hh2, Hv.
+  Qed.
+
+  (* ------------------------------------------------------------------ (b) γ·L and monotonicity of γ *)
+  Lemma glrel0_product (i : it) : glrel0 i -> igam i * iL i = p_Lgamma P / L_init * L_init.
+  Proof.
+    intros [j E]. unfold gl_of in E. pose proof (halve_n_product j (p_Lgamma P / L_init) L_init) as Hp.
+    fold gl0 in Hp. rewrite <- E in Hp. exact Hp.
+  Qed.
+  Lemma glrel0_product_factor (i : it) : L_init <> 0 -> glrel0 i -> igam i * iL i = p_Lgamma P.
+  Proof. intros HL Hg. rewrite (glrel0_product i Hg). field. exact HL. Qed.
+  Lemma halved_nonincreasing (a b : it) : halved a b -> 0 < igam a -> 0 < igam b <= igam a.
+  Proof.
+    intros [j E] Hp. pose proof (halve_n_nonincreasing j (igam a) (iL a) Hp) as Hn.
+    unfold gl_of in E. rewrite <- E in Hn. exact Hn.
+  Qed.
+  Lemma halved_product (a b : it) : halved a b -> igam b * iL b = igam a * iL a.
+  Proof.
+    intros [j E]. pose proof (halve_n_product j (igam a) (iL a)) as Hp. unfold gl_of in E. rewrite <- E in Hp. exact Hp.
+  Qed.
+  Lemma glrel0_pos (i : it) : 0 < p_Lgamma P -> 0 < L_init -> glrel0 i -> 0 < igam i.
+  Proof.
+    intros H1 H2 [j E]. assert (Hp : 0 < p_Lgamma P / L_init) by (apply Rdiv_lt_0_compat; assumption).
+    pose proof (halve_n_nonincreasing j _ L_init Hp) as Hn. fold gl0 in Hn. rewrite <- E in Hn. apply Hn.
+  Qed.
+
+  (* ------------------------------------------------------------------ (c) quadratic upper bound at every checked / reported iterate *)
+  Lemma qub_ok_explicit (i : it) : qub_ok i ->
+    p_Lmax P <= iL i \/
+    ipsih i <= ipsi i + igp i + 1 / 2 * iL i * ipp i + (1 + Rabs (ipsi i)) * p_qub_tol P.
+  Proof.
+    unfold qub_ok, it_qub_violated, qub_violated, qub_rhs, nhalf1. numR. rewrite ?one_plus_one.
+    destruct (Rlt_bool_spec (iL i) (p_Lmax P)); cbn [andb]; [|left; assumption].
+    intros Hq. right. apply Rlt_bool_false_iff in Hq. exact Hq.
+  Qed.
+
+  (* ------------------------------------------------------------------ (d) descent between consecutive reported iterates *)
+  Lemma desc_accelerated (r r' : cbrec (T:=R)) : desc r r' -> p_recompute P = false -> p_force_ls P = false -> 0 < r_tau r ->
+    let a := r_it r in
+    it_fbe (r_it r') <= it_fbe a - p_beta P * (1 - igam a * iL a) / (2 * igam a) * ipp a + (1 + Rabs (it_fbe a)) * p_ls_tol P.
+  Proof.
+    intros (_ & _ & _ & H) Hr Hf Hp a. destruct (H Hr) as [Hls _].
+    assert (Hb : Rlt_bool 0 (r_tau r) = true) by (now apply Rlt_bool_iff).
+    specialize (Hls Hb). unfold it_ls_violated in Hls. rewrite Hf in Hls. apply ls_accept_descent in Hls. exact Hls.
+  Qed.
+
+  Lemma vdot_comm (a b : list R) : vdot a b = vdot b a.
+  Proof.
+    rewrite !vdot_rsum. revert b; induction a as [|x a IH]; intros [|y b]; cbn; try reflexivity. rewrite IH. lra.
+  Qed.
+  Lemma proj_step_all_in_box γ : forall (lb' ub' : list (option R)) (x g : list R),
+    length ub' = length lb' -> length x = length lb' -> length g = length lb' ->
+    Forall2 box_ne lb' ub' -> all_in_box lb' ub' (fst (fst (proj_grad_step lb' ub' γ x g))).
+  Proof.
+    unfold all_in_box, proj_grad_step; cbn [fst snd].
+    induction lb' as [|l lb' IH]; intros [|u ub'] [|a x] [|b g] H1 H2 H3 Hne; cbn in *; try discriminate; constructor.
+    - inversion Hne; subst. cbn [fst snd]. split; [|assumption].
+      change (nadd a ?t) with (a + t). rewrite proj_step1_is_proj. now apply proj1_in_box.
+    - inversion Hne; subst. apply IH; try lia; assumption.
+  Qed.
+
+  (* safeguarded step (τ = 0) with the quadratic upper bound satisfied at the reported iterate: C05's envelope descent *)
+  Lemma desc_safe (r r' : cbrec (T:=R)) : desc r r' -> rec_ok r -> rec_ok r' -> p_recompute P = false -> l1 = [] ->
+    r_tau r = 0 -> iL (r_it r) < p_Lmax P -> 0 < igam (r_it r) -> 0 < igam (r_it r') ->
+    length ub = length lb -> length (ix (r_it r)) = length lb -> length (igrad (r_it r)) = length lb ->
+    length (igrad (r_it r')) = length lb -> Forall2 box_ne lb ub ->
+    let a := r_it r in
+    it_fbe (r_it r') <= it_fbe a - (1 - igam a * iL a) / (2 * igam a) * ipp a + (1 + Rabs (ipsi a)) * p_qub_tol P.
+  Proof.
+    intros (_ & _ & _ & H) (Ax & As & _ & _ & Ag) (Bx & Bs & _) Hr Hl1 Ht HL Hga Hgb Hub Hlx Hlg Hlg' Hne a.
+    destruct (H Hr) as [_ Hsafe]. destruct (Hsafe Ht) as [Sx Sp]. destruct (Ag (or_introl Hr)) as [_ Aq].
+    subst a. set (a := r_it r) in *. set (b := r_it r') in *.
+    unfold cons_step in As, Bs. rewrite Hl1 in As, Bs. cbn [eval_prox_grad_step] in As, Bs.
+    destruct As as (As1 & As2 & As3). destruct Bs as (Bs1 & Bs2 & Bs3).
+    assert (Eap : ip a = snd (fst (proj_grad_step lb ub (igam a) (ix a) (igrad a)))) by (now rewrite As1).
+    assert (Eaxh : ixh a = fst (fst (proj_grad_step lb ub (igam a) (ix a) (igrad a)))) by (now rewrite As1).
+    assert (Eah : ih a = 0) by (pose proof (f_equal snd As1) as Hh; unfold proj_grad_step in Hh; cbn [snd] in Hh; symmetry; exact Hh).
+    assert (Ebp : ip b = snd (fst (proj_grad_step lb ub (igam b) (ixh a) (igrad b)))) by (rewrite <- Sx; now rewrite Bs1).
+    assert (Ebh : ih b = 0) by (pose proof (f_equal snd Bs1) as Hh; unfold proj_grad_step in Hh; cbn [snd] in Hh; symmetry; exact Hh).
+    assert (Hlen : length (ixh a) = length lb).
+    { rewrite Eaxh. apply (proj_grad_step_length lb ub (igam a) (ix a) (igrad a) (length lb)); auto. }
+    assert (Hbox : all_in_box lb ub (ixh a)) by (rewrite Eaxh; apply proj_step_all_in_box; assumption).
+    assert (Hqv : qub_violated (ipsi a) (ipsih a) (vdot (igrad a) (ip a)) (iL a) (vsqnorm (ip a)) (p_qub_tol P) = false).
+    { unfold qub_ok, it_qub_violated in Aq. rewrite As2, As3, (vdot_comm (ip a)) in Aq.
+      destruct (Rlt_bool_spec (iL a) (p_Lmax P)); [exact Aq|lra]. }
+    rewrite Eap in Hqv.
+    pose proof (safe_step_envelope_descent lb ub (igam a) (igam b) (iL a) (p_qub_tol P) (ix a) (igrad a) (ixh a) (igrad b) (ipsi a) (ipsih a)
+                  Hga Hgb ltac:(now rewrite Hlen) ltac:(now rewrite Hlen, Hub) ltac:(now rewrite Hlen, Hlg') Hbox Hqv) as Hd.
+    cbv zeta in Hd. rewrite <- Ebp, <- Eap in Hd.
+    unfold it_fbe. rewrite Ebh, Eah, Bs2, Bs3, As2, As3, Sp, (vdot_comm (ip b)), (vdot_comm (ip a)). exact Hd.
+  Qed.
+
+  (* ------------------------------------------------------------------ (e) iterations and status;  (f) exit *)
+  Theorem panoc_status_clauses fuel o : panoc_ fuel = Done o ->
+    (out_iterations o <= p_max_iter P)%nat /\
+    out_status o <> StBusy /\
+    (out_status o = StMaxIter -> out_iterations o = p_max_iter P) /\
+    (out_status o = StConverged <-> out_eps o <= eff_tol (o_tol P)) /\
+    (out_status o = StInterrupted -> exists c, stop_req c = true) /\
+    (out_status o = StMaxTime -> exists c, time_up c = true) /\
+    (out_status o = StNoProgress -> exists np, (p_max_no_progress P < np)%nat).
+  Proof.
+    intros Hr. destruct (panoc_post fuel o Hr) as (cf & cnt & np & W). destruct W.
+    split; [assumption|]. split; [assumption|]. split; [|split; [|split; [|split]]].
+    - intros E. rewrite E in po_status0. symmetry in po_status0. now apply maxiter_only_at_limit in po_status0.
+    - rewrite po_status0. rewrite converged_iff. apply Rle_bool_iff.
+    - intros E. rewrite E in po_status0. symmetry in po_status0. apply interrupted_only_if_requested in po_status0. eauto.
+    - intros E. rewrite E in po_status0. symmetry in po_status0. apply maxtime_only_if_exceeded in po_status0. eauto.
+    - intros E. rewrite E in po_status0. symmetry in po_status0. apply noprogress_only_above_limit in po_status0. eauto.
+  Qed.
+
+  (* exit: the written-back triple is the exit block of a consistent iterate *)
+  Theorem panoc_exit fuel o : panoc_ fuel = Done o ->
+    exists cf : it, consistent cf /\ qub_ok cf /\ glrel0 cf /\ (need_gradh P = true -> ihave cf = true) /\
+      out_eps o = eps_of cf /\
+      (overwrites (out_status o) (o_always P) = true ->
+         out_x o = ixh cf /\ ixh cf = vadd (ix cf) (ip cf) /\
+         out_y o = iyh cf /\ iyh cf = snd (psi_hat_of (out_x o)) /\
+         out_errz o = match errz_in with [] => [] | _ => vdiv (vsub (out_y o) y_in) Σ end) /\
+      (overwrites (out_status o) (o_always P) = false -> out_x o = x_in /\ out_y o = y_in /\ out_errz o = errz_in).
+  Proof.
+    intros Hr. destruct (panoc_post fuel o Hr) as (cf & cnt & np & W). destruct W.
+    exists cf. repeat (split; [assumption|]). unfold exit_block in po_exit0.
+    split; intros Ho; rewrite Ho in po_exit0;
+      pose proof (f_equal (fun t => fst (fst t)) po_exit0) as X1; pose proof (f_equal (fun t => snd (fst t)) po_exit0) as X2;
+      pose proof (f_equal snd po_exit0) as X3; cbn [fst snd] in X1, X2, X3; rewrite X1, X2, X3.
+    - destruct (consistent_explicit cf po_cons0) as (E1 & _ & _ & _ & E5 & _).
+      split; [reflexivity|]. split; [exact E1|]. split; [reflexivity|]. split; [rewrite <- E5; reflexivity|reflexivity].
+    - repeat split.
+  Qed.
+
+  (* the inner-solver contract of C01 (DESIGN §4): Converged under ApproxKKT *)
+  Theorem panoc_inner_contract fuel o : panoc_ fuel = Done o ->
+    out_status o = StConverged -> p_crit P = ApproxKKT -> l1 = [] ->
+    exists (x grad gradh : list R) (γ : R),
+      let step := proj_grad_step lb ub γ x grad in
+      out_x o = fst (fst step) /\
+      out_y o = snd (psi_hat_of (out_x o)) /\
+      is_gradh (out_x o) (out_y o) gradh /\
+      out_errz o = match errz_in with [] => [] | _ => vdiv (vsub (out_y o) y_in) Σ end /\
+      out_eps o = vnorminf (kkt_residual γ (snd (fst step)) grad gradh) /\
+      out_eps o <= eff_tol (o_tol P) /\
+      (exists ψ, val_x x ψ grad) /\
+      (0 < p_Lgamma P -> 0 < L_init -> 0 < γ) /\
+      (L_init <> 0 -> exists L, γ * L = p_Lgamma P).
+  Proof.
+    intros Hr Hst Hcrit Hl1. destruct (panoc_exit fuel o Hr) as (cf & Hc & Hq & Hg & Hh & He & Hov & _).
+    assert (Hov' : overwrites (out_status o) (o_always P) = true) by (rewrite Hst; reflexivity).
+    destruct (Hov Hov') as (O1 & O2 & O3 & O4 & O5).
+    destruct (consistent_explicit cf Hc) as (E1 & E2 & E3 & E4 & E5 & E6 & E7).
+    exists (ix cf), (igrad cf), (igradh cf), (igam cf). cbv zeta.
+    rewrite Hl1 in E2. cbn [eval_prox_grad_step] in E2. rewrite E2. cbn [fst snd].
+    split; [exact O1|]. split; [now rewrite O3|]. split.
+    { rewrite O1, O3. apply E6, Hh. unfold need_gradh. now rewrite Hcrit. }
+    split; [exact O5|]. split.
+    { rewrite He. unfold it_eps. rewrite Hcrit. reflexivity. }
+    split; [destruct (panoc_status_clauses fuel o Hr) as (_ & _ & _ & Hcv & _); apply Hcv; exact Hst|].
+    split; [exists (ipsi cf); exact E7|]. split; [intros; now apply glrel0_pos|].
+    intros HL. exists (iL cf). now apply glrel0_product_factor.
+  Qed.
+
+  (* every progress-callback record and every consecutive pair *)
+  Theorem panoc_records fuel o : panoc_ fuel = Done o ->
+    Forall rec_ok (out_log o) /\ chain (rev (out_log o)) /\
+    exists cf, hd_error (rev (out_log o)) = Some (mkCb (out_iterations o) cf [] (- 1) (out_eps o) (out_status o)) /\ consistent cf.
+  Proof.
+    intros Hr. destruct (panoc_post fuel o Hr) as (cf & cnt & np & W). destruct W. repeat split; try assumption. exists cf. split; assumption.
   Qed.
 End Proofs.
